@@ -154,6 +154,11 @@ var libAxioms = map[string]libAx{
 	"strings.TrimSuffix": {nil, []string{
 		"(assert (forall ((s Str) (p Str)) (! (<= (str_len (L_strings_TrimSuffix s p)) (str_len s)) :pattern ((L_strings_TrimSuffix s p)))))",
 	}},
+	"(time.Time).Compare": {nil, []string{
+		"(assert (forall ((a O_time_Time) (b O_time_Time)) (! (and (<= (- 1) (L__time_Time__Compare a b)) (<= (L__time_Time__Compare a b) 1) (= (L__time_Time__Compare a b) (- (L__time_Time__Compare b a)))) :pattern ((L__time_Time__Compare a b)))))",
+		"(assert (forall ((a O_time_Time)) (! (= (L__time_Time__Compare a a) 0) :pattern ((L__time_Time__Compare a a)))))",
+		"(assert (forall ((a O_time_Time) (b O_time_Time) (c O_time_Time)) (! (=> (and (<= (L__time_Time__Compare a b) 0) (<= (L__time_Time__Compare b c) 0)) (and (<= (L__time_Time__Compare a c) 0) (=> (or (< (L__time_Time__Compare a b) 0) (< (L__time_Time__Compare b c) 0)) (< (L__time_Time__Compare a c) 0)))) :pattern ((L__time_Time__Compare a b) (L__time_Time__Compare b c)))))",
+	}},
 	"unicode.IsDigit": {nil, []string{
 		"(assert (forall ((c Int)) (! (=> (and (<= 0 c) (< c 256)) (= (L_unicode_IsDigit c) (and (<= 48 c) (<= c 57)))) :pattern ((L_unicode_IsDigit c)))))",
 	}},
